@@ -281,6 +281,31 @@ fn cell_negative_templates(rep: &mut Report) {
     }
 }
 
+/// C12: a `break` / `continue` outside every loop of its function, or a `return` outside every function, must be
+/// rejected wherever the function is written (e.g. inside a loop body)
+fn stray_exits(body: &[S], index: u64, rep: &mut Report) {
+    for (k, (variant, what)) in prog::stray_exit_variants(body, index / 3).into_iter().enumerate() {
+        let text = prog::program_text(&variant, if (index + k as u64) % 2 == 0 { Mode::Literal } else { Mode::Hidden });
+        must_reject(&text, what, rep);
+    }
+}
+
+fn must_reject(text: &str, what: &str, rep: &mut Report) {
+    let run = run_real(text, FUEL);
+    rep.evaluations += 1;
+    if let Outcome::Rejected(v, _) = &run.outcome {
+        rep.count(&format!("stray-exit:{what}:rejected:{v}"));
+        return;
+    }
+    let payload = format!("#must-reject {what}\n{}", &text[crate::ast::PRELUDE.len().min(text.len())..]);
+    rep.violation(
+        &format!("c12:invalid-exit-accepted:{what}"),
+        &format!("a program with a {what} is accepted (outcome {}) :: {}", run.outcome.tag(), truncate(&text[crate::ast::PRELUDE.len().min(text.len())..], 400)),
+        "diff",
+        &payload,
+    );
+}
+
 pub fn run(cfg: &Cfg, rep: &mut Report, spec: &Spec) {
     let deadline = Deadline::new(cfg.budget_s);
     if spec.prop == "C13" && cfg.shard == 0 {
@@ -304,6 +329,9 @@ pub fn run(cfg: &Cfg, rep: &mut Report, spec: &Spec) {
         let text = prog::program_text(&body, Mode::Literal);
         rep.distinct_case(&text);
         rep.sample(profile.name, 2, || Obj::new().s("profile", profile.name).s("program", &truncate(&text[crate::ast::PRELUDE.len()..], 700)).render());
+        if spec.prop == "C12" && i % 3 == 0 {
+            stray_exits(&body, i, rep);
+        }
         let Some((class, which, detail)) = examine(&body, spec, Some(rep)) else { continue };
         if reported >= 12 {
             rep.count(&format!("further-violations:{class}"));
@@ -335,6 +363,11 @@ pub fn run(cfg: &Cfg, rep: &mut Report, spec: &Spec) {
 pub fn replay(cfg: &Cfg, payload: &str, rep: &mut Report, spec: &Spec) {
     // regenerate the program from its generator coordinates and judge it again
     let head = payload.lines().next().unwrap_or("");
+    if let Some(what) = head.strip_prefix("#must-reject ") {
+        let text = format!("{}{}", crate::ast::PRELUDE, payload.lines().skip(1).collect::<Vec<_>>().join("\n"));
+        must_reject(&text, what.trim(), rep);
+        return;
+    }
     let get = |k: &str| -> Option<u64> { head.split_whitespace().find_map(|t| t.strip_prefix(&format!("{k}="))).and_then(|v| v.parse().ok()) };
     let pname = head.split_whitespace().find_map(|t| t.strip_prefix("profile=")).unwrap_or("");
     let (Some(seed), Some(shard), Some(index)) = (get("seed"), get("shard"), get("index")) else {
